@@ -2965,6 +2965,31 @@ impl<'a> Parser<'a> {
     }
 
     fn parse_parenthesized_or_arrow(&mut self) -> Result<Expression, JsError> {
+        // `( ... )` is first tried as an arrow parameter list and then re-parsed as a
+        // parenthesized expression. When both attempts fail, report the failure that got
+        // further into the source: that is where the text stops being valid. (Otherwise a
+        // syntax error inside a default value of `(a: T, b = <here>) => ..` is reported at
+        // the `:` of the first parameter, which the fallback parse cannot digest.)
+        let mut params_error: Option<JsError> = None;
+        match self.parse_parenthesized_or_arrow_impl(&mut params_error) {
+            Err(fallback_error) => {
+                let pos = |e: &JsError| match e {
+                    JsError::SyntaxError { location, .. } => (location.line, location.column),
+                    _ => (0, 0),
+                };
+                match params_error {
+                    Some(first) if pos(&first) > pos(&fallback_error) => Err(first),
+                    _ => Err(fallback_error),
+                }
+            }
+            ok => ok,
+        }
+    }
+
+    fn parse_parenthesized_or_arrow_impl(
+        &mut self,
+        params_error: &mut Option<JsError>,
+    ) -> Result<Expression, JsError> {
         let start = self.current.span;
 
         // Save state for potential rollback
@@ -2980,7 +3005,16 @@ impl<'a> Parser<'a> {
         }
 
         // Try to parse as arrow function params (with type annotations)
-        if let Ok(params) = self.try_parse_arrow_params() {
+        let arrow_params = self.try_parse_arrow_params();
+        if let Err(e) = &arrow_params
+            && let JsError::SyntaxError { message, location } = e
+        {
+            *params_error = Some(JsError::SyntaxError {
+                message: message.clone(),
+                location: location.clone(),
+            });
+        }
+        if let Ok(params) = arrow_params {
             // Arrow immediately after ) -> definitely arrow function
             if self.check(&TokenKind::Arrow) {
                 return self.parse_arrow_function_from_params(params, start);
